@@ -3,6 +3,7 @@
 SPECIFICATION Spec
 CONSTANTS
   MaxLen = 3
+  Starts <- StartsNone
   Alphabet <- AlphaBase
   Files <- FilesQuick
   FilterLists <- FiltersQuick
